@@ -47,7 +47,16 @@ fn main() {
         }
         let hist = gen_history(&mut g, conf.M.len(), calls, big_ids);
         let fseed = seed.wrapping_mul(1_000_003).wrapping_add(sc);
-        let mk = || FwRun::new(&conf, Xoshiro256StarStar::seed_from_u64(fseed));
+        let machines: Vec<maybenot::Machine> =
+            conf.M.iter().map(|m| m.to_machine_unchecked()).collect();
+        let mk = || {
+            FwRun::from_machines(
+                machines.clone(),
+                verif_harness::model::frac(conf.fwPad),
+                verif_harness::model::frac(conf.fwBlk),
+                Xoshiro256StarStar::seed_from_u64(fseed),
+            )
+        };
         let (mut run, mut twin) = match (mk(), mk()) {
             (Ok(a), Ok(b)) => (a, b),
             (Err(e), _) | (_, Err(e)) => {
